@@ -1,5 +1,6 @@
 import EchVerif.Lemmas.DNS
 import EchVerif.Lemmas.NameSpec
+import EchVerif.Props.C12
 /-
   C13 — the DNS codec round-trips and agrees with an independent RFC 1035/9460 codec.
   Proved here: the name codec round trip (the part everything else rests on), the header round trip,
@@ -953,6 +954,263 @@ theorem C13_name_unique (raw : Bytes) (pos k1 k2 : Nat) (n1 n2 : Name)
       rw [h1'] at g1; cases g1
       obtain ⟨e1, e2⟩ := ih _ _ g
       exact ⟨e1, by omega⟩
+
+/-! ### … lifted to whole messages: every name of a decoded message is an RFC 1035 name of it -/
+
+theorem wU16_inside {raw : Bytes} {w w' : Win} {v : Nat} (hw : Win.Inside raw w) (h : wU16 w = some (v, w')) :
+    Win.Inside raw w' := by
+  unfold wU16 at h
+  rw [Option.map_eq_some_iff] at h
+  obtain ⟨⟨v', r⟩, hr, he⟩ := h
+  simp only [Prod.mk.injEq] at he
+  obtain ⟨_, rfl⟩ := he
+  exact (Win.inside_adv (u16 v') r hw (readU16_inv hr).1).1
+
+theorem wU32_inside {raw : Bytes} {w w' : Win} {v : Nat} (hw : Win.Inside raw w) (h : wU32 w = some (v, w')) :
+    Win.Inside raw w' := by
+  unfold wU32 at h
+  rw [Option.map_eq_some_iff] at h
+  obtain ⟨⟨v', r⟩, hr, he⟩ := h
+  simp only [Prod.mk.injEq] at he
+  obtain ⟨_, rfl⟩ := he
+  exact (Win.inside_adv (u32 v') r hw (readU32_inv hr).1).1
+
+theorem wLP16_inside {raw : Bytes} {w d w' : Win} (hw : Win.Inside raw w) (h : wLP16 w = some (d, w')) :
+    Win.Inside raw d ∧ Win.Inside raw w' := by
+  unfold wLP16 at h
+  rw [Option.map_eq_some_iff] at h
+  obtain ⟨⟨x, r⟩, hr, he⟩ := h
+  simp only [Prod.mk.injEq] at he
+  obtain ⟨rfl, rfl⟩ := he
+  have hb := (readLP16_inv hr).1
+  refine ⟨?_, (Win.inside_adv (u16 x.length ++ x) r hw hb).1⟩
+  obtain ⟨t, ht⟩ := hw
+  refine ⟨r ++ t, ?_⟩
+  show raw.drop (w.pos + 2) = x ++ (r ++ t)
+  rw [← List.drop_drop, ht, hb]
+  simp [u16]
+
+theorem httpsParamsF_target : ∀ (fuel : Nat) (b : Bytes) (h h' : Https),
+    httpsParamsF fuel b h = some h' → h'.target = h.target := by
+  intro fuel
+  induction fuel with
+  | zero => intro b h h' e; simp only [httpsParamsF] at e; split at e <;> simp at e; rw [e]
+  | succ f ih =>
+    intro b h h' e
+    simp only [httpsParamsF] at e
+    split at e
+    · simp at e; rw [e]
+    · split at e
+      · simp at e
+      · split at e
+        · simp at e
+        · split at e
+          · simp at e
+          · rename_i k r hk _ v r2 hv _ h'' hh
+            have := ih _ _ _ e
+            rw [this]
+            by_cases k1 : k = 1
+            · rw [if_pos k1, Option.map_eq_some_iff] at hh; obtain ⟨_, _, rfl⟩ := hh; rfl
+            rw [if_neg k1] at hh
+            by_cases k2 : k = 2
+            · rw [if_pos k2] at hh; cases hh; rfl
+            rw [if_neg k2] at hh
+            by_cases k3 : k = 3
+            · rw [if_pos k3, Option.map_eq_some_iff] at hh; obtain ⟨_, _, rfl⟩ := hh; rfl
+            rw [if_neg k3] at hh
+            by_cases k4 : k = 4
+            · rw [if_pos k4, Option.map_eq_some_iff] at hh; obtain ⟨_, _, rfl⟩ := hh; rfl
+            rw [if_neg k4] at hh
+            by_cases k5 : k = 5
+            · rw [if_pos k5] at hh; cases hh; rfl
+            rw [if_neg k5] at hh
+            by_cases k6 : k = 6
+            · rw [if_pos k6, Option.map_eq_some_iff] at hh; obtain ⟨_, _, rfl⟩ := hh; rfl
+            rw [if_neg k6] at hh
+            cases hh; rfl
+
+/-- the names inside record data the resolver follows: NS / CNAME / PTR targets and the target of
+    an HTTPS record -/
+def RDataNames (raw : Bytes) : RData → Prop
+  | .name n => ∃ p, Spec.NameAt raw p n
+  | .https h => ∃ p, Spec.NameAt raw p h.target
+  | _ => True
+
+theorem decodeRData_names (raw : Bytes) (typ : Nat) (data : Win) (d : RData) (hd : Win.Inside raw data)
+    (h : decodeRData raw typ data = some d) : RDataNames raw d := by
+  have ht := C12_types raw typ data d h
+  cases d with
+  | name n =>
+    simp only [TypeMatches] at ht
+    unfold decodeRData at h
+    rw [if_neg (by omega), if_pos ht, Option.map_eq_some_iff] at h
+    obtain ⟨⟨n', w'⟩, hr, he⟩ := h
+    cases he
+    exact ⟨data.pos, (C13_name_refines_rfc1035 raw data w' n hd hr).1⟩
+  | https hh =>
+    simp only [TypeMatches] at ht
+    subst ht
+    simp only [decodeRData] at h
+    simp at h
+    unfold decHTTPS at h
+    split at h
+    · simp at h
+    · rename_i p w1 h1
+      split at h
+      · simp at h
+      · rename_i n w2 h2
+        rw [Option.map_eq_some_iff] at h
+        obtain ⟨h', hp, he⟩ := h
+        cases he
+        have := httpsParamsF_target _ _ _ _ hp
+        simp only at this
+        exact ⟨w1.pos, by rw [this]; exact (C13_name_refines_rfc1035 raw w1 w2 n (wU16_inside hd h1) h2).1⟩
+  | _ => trivial
+
+theorem decodeRR_names (raw : Bytes) (w w' : Win) (rr : RR) (hw : Win.Inside raw w)
+    (h : decodeRR raw w = some (rr, w')) :
+    Win.Inside raw w' ∧ Spec.NameAt raw w.pos rr.name ∧ RDataNames raw rr.data := by
+  unfold decodeRR at h
+  split at h
+  · simp at h
+  · rename_i n w1 h1
+    split at h
+    · simp at h
+    · rename_i typ w2 h2
+      split at h
+      · simp at h
+      · rename_i cls w3 h3
+        split at h
+        · simp at h
+        · rename_i ttl w4 h4
+          split at h
+          · simp at h
+          · rename_i data w5 h5
+            rw [Option.map_eq_some_iff] at h
+            obtain ⟨d, hd, he⟩ := h
+            simp only [Prod.mk.injEq] at he
+            obtain ⟨rfl, rfl⟩ := he
+            obtain ⟨hn, _, _, i1⟩ := C13_name_refines_rfc1035 raw w w1 n hw h1
+            have i4 := wU32_inside (wU16_inside (wU16_inside i1 h2) h3) h4
+            obtain ⟨i5, i6⟩ := wLP16_inside i4 h5
+            exact ⟨i6, hn, decodeRData_names raw typ data d i5 hd⟩
+
+theorem decodeRRs_names (raw : Bytes) : ∀ (n : Nat) (w w' : Win) (l : List RR), Win.Inside raw w →
+    decodeRRs raw n w = some (l, w') →
+    Win.Inside raw w' ∧ ∀ rr ∈ l, (∃ p, Spec.NameAt raw p rr.name) ∧ RDataNames raw rr.data := by
+  intro n
+  induction n with
+  | zero => intro w w' l hw h; simp [decodeRRs] at h; obtain ⟨rfl, rfl⟩ := h; exact ⟨hw, by simp⟩
+  | succ k ih =>
+    intro w w' l hw h
+    simp only [decodeRRs] at h
+    split at h
+    · simp at h
+    · rename_i rr w1 h1
+      rw [Option.map_eq_some_iff] at h
+      obtain ⟨⟨l', w2⟩, hr, he⟩ := h
+      simp only [Prod.mk.injEq] at he
+      obtain ⟨rfl, rfl⟩ := he
+      obtain ⟨i1, hn, hd⟩ := decodeRR_names raw w w1 rr hw h1
+      obtain ⟨i2, hl⟩ := ih _ _ _ i1 hr
+      refine ⟨i2, ?_⟩
+      intro x hx
+      simp only [List.mem_cons] at hx
+      rcases hx with rfl | hx
+      · exact ⟨⟨w.pos, hn⟩, hd⟩
+      · exact hl x hx
+
+theorem decodeQuestions_names (raw : Bytes) : ∀ (n : Nat) (w w' : Win) (l : List Question), Win.Inside raw w →
+    decodeQuestions raw n w = some (l, w') →
+    Win.Inside raw w' ∧ ∀ q ∈ l, ∃ p, Spec.NameAt raw p q.name := by
+  intro n
+  induction n with
+  | zero => intro w w' l hw h; simp [decodeQuestions] at h; obtain ⟨rfl, rfl⟩ := h; exact ⟨hw, by simp⟩
+  | succ k ih =>
+    intro w w' l hw h
+    simp only [decodeQuestions] at h
+    split at h
+    · simp at h
+    · rename_i nm w1 h1
+      split at h
+      · simp at h
+      · rename_i t w2 h2
+        split at h
+        · simp at h
+        · rename_i c w3 h3
+          rw [Option.map_eq_some_iff] at h
+          obtain ⟨⟨l', w4⟩, hr, he⟩ := h
+          simp only [Prod.mk.injEq] at he
+          obtain ⟨rfl, rfl⟩ := he
+          obtain ⟨hn, _, _, i1⟩ := C13_name_refines_rfc1035 raw w w1 nm hw h1
+          obtain ⟨i2, hl⟩ := ih _ _ _ (wU16_inside (wU16_inside i1 h2) h3) hr
+          refine ⟨i2, ?_⟩
+          intro x hx
+          simp only [List.mem_cons] at hx
+          rcases hx with rfl | hx
+          · exact ⟨w.pos, hn⟩
+          · exact hl x hx
+
+theorem readU16_drop {b r : Bytes} {v : Nat} (h : readU16 b = some (v, r)) : r = b.drop 2 := by
+  have := (readU16_inv h).1
+  rw [this]; simp [u16]
+
+theorem decode_inv_drop (raw : Bytes) (m : Message) (h : decode raw = some m) :
+    ∃ qd an ns ar qs w1 a w2 b w3 c w4,
+      decodeQuestions raw qd ⟨12, raw.drop 12⟩ = some (qs, w1) ∧ decodeRRs raw an w1 = some (a, w2) ∧
+      decodeRRs raw ns w2 = some (b, w3) ∧ decodeRRs raw ar w3 = some (c, w4) ∧
+      m.question = qs ∧ m.answer = a ∧ m.authority = b ∧ m.additional = c := by
+  unfold decode at h
+  split at h; · simp at h
+  rename_i id r1 h1
+  split at h; · simp at h
+  rename_i fl r2 h2
+  split at h; · simp at h
+  rename_i qd r3 h3
+  split at h; · simp at h
+  rename_i an r4 h4
+  split at h; · simp at h
+  rename_i ns r5 h5
+  split at h; · simp at h
+  rename_i ar r6 h6
+  split at h; · simp at h
+  rename_i qs w1 hq
+  split at h; · simp at h
+  rename_i a w2 ha
+  split at h; · simp at h
+  rename_i b w3 hb
+  split at h; · simp at h
+  rename_i c w4 hc
+  simp only [Option.some.injEq] at h
+  subst h
+  have e : r6 = raw.drop 12 := by
+    rw [readU16_drop h6, readU16_drop h5, readU16_drop h4, readU16_drop h3, readU16_drop h2, readU16_drop h1]
+    simp [List.drop_drop]
+  subst e
+  exact ⟨qd, an, ns, ar, qs, w1, a, w2, b, w3, c, w4, hq, ha, hb, hc, rfl, rfl, rfl, rfl⟩
+
+/-- Every name a successful `DecodeMessage` hands to its caller - question names, the owner name
+    of every record of the three sections, the target of every NS / CNAME / PTR and HTTPS record -
+    is the RFC 1035 name found at some offset of the message that was decoded: the decoder cannot
+    invent a name, take one from outside the message or splice labels that RFC 1035 does not join. -/
+theorem C13_message_names_rfc1035 (raw : Bytes) (m : Message) (h : decode raw = some m) :
+    (∀ q ∈ m.question, ∃ p, Spec.NameAt raw p q.name) ∧
+    (∀ rr ∈ m.answer ++ m.authority ++ m.additional,
+      (∃ p, Spec.NameAt raw p rr.name) ∧ RDataNames raw rr.data) := by
+  obtain ⟨qd, an, ns, ar, qs, w1, a, w2, b, w3, c, w4, hq, ha, hb, hc, e1, e2, e3, e4⟩ := decode_inv_drop raw m h
+  have i0 : Win.Inside raw ⟨12, raw.drop 12⟩ := Win.inside_whole raw 12
+  obtain ⟨i1, hqs⟩ := decodeQuestions_names raw qd _ _ _ i0 hq
+  obtain ⟨i2, h2⟩ := decodeRRs_names raw an _ _ _ i1 ha
+  obtain ⟨i3, h3⟩ := decodeRRs_names raw ns _ _ _ i2 hb
+  obtain ⟨_, h4⟩ := decodeRRs_names raw ar _ _ _ i3 hc
+  subst e1 e2 e3 e4
+  refine ⟨hqs, ?_⟩
+  intro rr hrr
+  simp only [List.mem_append] at hrr
+  rcases hrr with (hrr | hrr) | hrr
+  · exact h2 rr hrr
+  · exact h3 rr hrr
+  · exact h4 rr hrr
 
 /-- non-vacuity: "ex" followed by a pointer back to it, read at the pointer -/
 example : Spec.NameAtBack [2, 101, 120, 0, 192, 0] 4 [[101, 120]] 1 :=
